@@ -328,6 +328,7 @@ Section Capped.
       (if p_ws_mode p1
        then match e with HNeedData => ret tt | _ => emit (ONote "h11-contract-violated") end
        else (if event_allowed (p_lib p1) e then ret tt else emit (ONote "h11-contract-violated")) ;;
+            (if is_request_ev e && negb (cs_keep_alive (l_cs (p_lib p1))) then note "request-after-close" else ret tt) ;;
             modify (fun p => set_lib (recv (p_lib p) e) p) ;;
             p <- get ;; emit (OLib [VS "states"; v_of_h1state (our_state (p_lib p)); v_of_h1state (their_state (p_lib p))]))%M
       (fun _ p => Capped p /\ (is_request e = true -> Fresh p)) Capped.
@@ -337,6 +338,9 @@ Section Capped.
     - destruct (event_allowed (p_lib p1) e) eqn:EA.
       2:{ eapply tri_bind with (Mid := fun _ _ => False); [apply tri_emit_V|intros ?; apply tri_pre_false; intros p []]. }
       eapply tri_bind with (Mid := fun _ p => Capped p /\ p = set_events rest p1); [apply tri_ret; auto|intros ?].
+      eapply tri_bind with (Mid := fun _ p => Capped p /\ p = set_events rest p1).
+      { destruct (_ && negb _); [apply tri_emit; [discriminate|auto]|apply tri_ret; auto]. }
+      intros ?.
       eapply tri_bind with (Mid := fun _ p => Capped p /\ (is_request e = true -> Fresh p)).
       + apply tri_modify. intros p [Hp Ep]. subst p. set (p0 := set_events rest p1) in *.
         assert (EL : p_lib p0 = p_lib p1) by reflexivity. rewrite <- EL in EA. clearbody p0.
